@@ -9,6 +9,7 @@ mod refm;
 mod reg;
 mod rep;
 mod rng;
+mod sv;
 mod props;
 
 pub type V = yata::core::ValueType;
